@@ -1,6 +1,11 @@
 package rules
 
-import "sort"
+import (
+	"fmt"
+	"runtime/debug"
+	"sort"
+	"strings"
+)
 
 // Property describes one property's rule set.
 type Property struct {
@@ -15,7 +20,35 @@ type Property struct {
 // Registry maps property id to its rule set.
 var Registry = map[string]*Property{}
 
-func register(p *Property) { Registry[p.ID] = p }
+func register(p *Property) {
+	inner := p.Run
+	p.Run = func(c *Ctx) {
+		defer func() {
+			if r := recover(); r != nil {
+				// a construct at an anchored site that the rules cannot
+				// classify is reported, never passed by default
+				c.Bad("R0", "unclassifiable-construct", "-", "every anchored construct can be classified by the rule set",
+					fmt.Sprintf("the analyser could not classify the code it found (%v) at:\n%s", r, firstFrames(debug.Stack())))
+			}
+		}()
+		inner(c)
+	}
+	Registry[p.ID] = p
+}
+
+func firstFrames(st []byte) string {
+	lines := strings.Split(string(st), "\n")
+	var out []string
+	for _, l := range lines {
+		if strings.Contains(l, "verif/lint/rules") && !strings.Contains(l, "registry.go") {
+			out = append(out, strings.TrimSpace(l))
+		}
+		if len(out) >= 4 {
+			break
+		}
+	}
+	return strings.Join(out, " | ")
+}
 
 // IDs lists registered property ids.
 func IDs() []string {
